@@ -64,10 +64,12 @@ def data_read_attempts(tf):
                     n = sum(len(x) for x in v) if isinstance(v, list) else (len(v) if hasattr(v, '__len__') else 1)
                     if isinstance(v, dict):
                         n = sum(len(x) for x in v.values())
-                    if n > 0 and len(ch) > 0:
+                    # a data read of a channel that holds values has to be refused: completing without an error is not a
+                    # refusal, whether it hands back values or an empty result
+                    if len(ch) > 0:
                         bad.append((ch.path, an, n))
     r = H.guarded(lambda: [1 for _ in tf.data_chunks()])
-    if r[0] == 'ok' and r[1] and any(len(ch) for g in tf.groups() for ch in g.channels()):
+    if r[0] == 'ok' and any(len(ch) for g in tf.groups() for ch in g.channels()):
         bad.append(('<file>', 'file-chunks', len(r[1])))
     return bad
 
@@ -266,6 +268,30 @@ def writer_inplace(item):
             for i in seq:
                 objs, _m = W.build_objects(shapes[i], assign, counters, instances)
                 w.write_segment(objs)
+    # a writer closed before its first segment leaves an empty file and an empty index: whatever reading the empty file does,
+    # the empty index beside it must not change it
+    tmp = H.scratch('verif_c09e_')
+    try:
+        path = os.path.join(tmp, 'empty.tdms')
+        with TdmsWriter(path, index_file=True):
+            pass
+        modes = {'read': lambda: summary(H.TdmsFile.read(path)),
+                 'open': lambda: _with(H.TdmsFile.open(path), lambda tf: summary(tf, lazy=True)),
+                 'read_metadata': lambda: summary(H.TdmsFile.read_metadata(path), data=False)}
+        with_index = {mn: H.guarded(fn) for mn, fn in modes.items()}
+        had_index = os.path.exists(path + '_index')
+        if had_index:
+            os.remove(path + '_index')
+        without = {mn: H.guarded(fn) for mn, fn in modes.items()}
+        res['counters']['files'] += 1
+        res['counters']['reads'] += 6
+        for mn in modes:
+            if had_index and with_index[mn][:2] != without[mn][:2]:
+                res['violations'].append({'case': {'inplace': ['empty.tdms', ''], 'which': mn, 'assign': list(assign), 'ai': ai},
+                                          'expected': 'same as without index', 'observed': 'empty file pair: %r with the empty index, %r without' % (with_index[mn][:2], without[mn][:2]),
+                                          'signature': {'kind': 'empty-pair', 'names': ['empty.tdms']}})
+    finally:
+        shutil.rmtree(tmp, ignore_errors=True)
     for first, second in (('run.tdms', 'run.dat'), ('run', 'run.tdms'), ('a.b.tdms', 'a.b'), ('d.tdms', 'd.tdms.bak'), ('e.TDMS', 'e.tdms')):
         tmp = H.scratch('verif_c09p_')
         try:
@@ -345,7 +371,7 @@ def replay(case):
         return bool(hits), 'same as the same bytes without index', hits[0]['observed'] if hits else 'same'
     if 'inplace' in case:
         r = writer_inplace((case['ai'], 0))
-        hits = [v for v in r['violations'] if v['case']['inplace'] == case['inplace'] and v['case']['which'] == case['which']]
+        hits = [v for v in r['violations'] if v['case']['inplace'][0] == case['inplace'][0] and v['case']['which'] == case['which']]
         return bool(hits), 'index at <path>_index, transparent', hits[0]['observed'] if hits else 'transparent'
     if 'writer_seq' in case:
         from .. import writerprog as W
